@@ -524,6 +524,47 @@ example (lg : ℝ → ℝ) (x : ℝ) : (betaSub 1 lg).ps 2 1 x ≠ none := by
   have h : ¬ ((tiny : ℝ) * 2⁻¹ < 0) := by have := tiny_pos; linarith
   simp [betaSub, betaPs, iter, psStep, h]
 
+/-- **Termination of the power series** (`while (fabs(v) > z)`, cpp:919-926; the code has no bound
+there), exact arithmetic, for `0 < x < 1`, `α > 0`, `0 ≤ β ≤ 2` (`_partial`: for `β > 2` the first
+`⌈β⌉ - 2` factors `(n-β)x/n` are negative and can exceed 1 in modulus, the geometric bound starts
+later — not proved): there is a number of rounds `N` such that the transcribed `betaPs` has returned
+for every fuel `≥ N`, whatever `lnGamma` is.  From `|t_k| ≤ |(1-β)x| · x^k`. -/
+theorem betaPs_terminates_partial (lg : ℝ → ℝ) (a b x : ℝ) (ha : 0 < a) (hb0 : 0 ≤ b) (hb2 : b ≤ 2)
+    (hx0 : 0 < x) (hx1 : x < 1) : ∃ N : Nat, ∀ fuel, N ≤ fuel → betaPs fuel lg a b x ≠ none := by
+  have hpos : (0 : ℝ) < tiny / (|(1 - b) * x| + 1) := div_pos tiny_pos (by positivity)
+  obtain ⟨m, hm⟩ := exists_pow_lt_of_lt_one hpos hx1
+  refine ⟨m + 1, fun fuel hf => ?_⟩
+  have hden : (0 : ℝ) < |(1 - b) * x| + 1 := by positivity
+  have hle : |(1 - b) * x| * x ^ m ≤ tiny := by
+    have h1 : x ^ m * (|(1 - b) * x| + 1) < tiny := by rwa [lt_div_iff₀ hden] at hm
+    have h2 : 0 ≤ x ^ m := pow_nonneg (le_of_lt hx0) m
+    nlinarith [abs_nonneg ((1 - b) * x)]
+  have ha1 : (0 : ℝ) < a + 1 := by linarith
+  have := ps_loop_terminates a b x ha hb0 hb2 hx0 hx1 m fuel
+    ⟨two, (one - b) * x, (one - b) * x / (a + one), zero⟩ hf (by simp)
+    (by
+      show |(one - b) * x / (a + one)| ≤ |(one - b) * x| / a
+      simp only [ScalarReal.one_eq]
+      rw [abs_div, abs_of_pos ha1]
+      exact div_le_div_of_nonneg_left (abs_nonneg _) ha (by linarith))
+    (by simpa using hle)
+  intro hn
+  simp only [betaPs, Option.map_eq_none_iff] at hn
+  rw [hn] at this
+  simp at this
+
+/-- the hypotheses of `ib_hangs_only_in_series` / `qBeta_terminates` hold for the transcribed sub-kernels
+at real, non-degenerate arguments: `incompleteBeta(x, 3/2, 1/2)` with the transcribed `betaPs` returns
+for every `0 < x < 1` once the fuel is large enough (the fuel depends on `x`) -/
+example (lg : ℝ → ℝ) (x : ℝ) (hx0 : 0 < x) (hx1 : x < 1) :
+    ∃ N : Nat, ∀ fuel, N ≤ fuel → incompleteBeta (betaSub fuel lg) x (3 / 2) (1 / 2) ≠ .hang := by
+  obtain ⟨N1, h1⟩ := betaPs_terminates_partial lg (3 / 2) (1 / 2) x (by norm_num) (by norm_num) (by norm_num) hx0 hx1
+  obtain ⟨N2, h2⟩ := betaPs_terminates_partial lg (1 / 2) (3 / 2) (1 - x) (by norm_num) (by norm_num) (by norm_num)
+    (by linarith) (by linarith)
+  refine ⟨max N1 N2, fun fuel hf => ?_⟩
+  exact ib_hangs_only_in_series _ x _ _ (h1 fuel (le_trans (le_max_left _ _) hf))
+    (h2 fuel (le_trans (le_max_right _ _) hf))
+
 /-! ## `qBeta` -/
 
 /-- **Whatever the Newton iteration delivers is a value or the outcome of a `pBeta` call it made**,
